@@ -65,7 +65,7 @@ def analyse(name, cases, lines, nex=3):
     n = sum(tot.values())
     rows = [{"level": l, "reason": r, "statements_with_it": c, "first_reason_of": first[(l, r)], "only_reason_of": only[(l, r)], "examples": ex.get((l, r), [])}
             for (l, r), c in anyr.most_common()]
-    return {"stream": name, "texts": len(cases), "rejected_by_the_model": rej, "statements": n, "X": tot["X"], "T": tot["T"], "outside": tot["-"] + tot["U"],
+    return {"stream": name, "texts": len(cases), "rejected_by_the_model": rej, "statements": n, "X": tot["X"], "T": tot["T"] + tot["Y"], "Y_text_level_by_leafAnyB2_only": tot["Y"], "outside": tot["-"] + tot["U"],
             "U_third_fragment_only": tot["U"], "outside_after": tot["-"], "M_inclusion_violations": tot["M"], "remaining": remaining(raw),
             "by_statement_class": {k: dict(v) for k, v in kinds.items()}, "reasons": rows,
             "what_if": what_if(raw), "raw": raw}
@@ -143,6 +143,8 @@ def main():
             r["stream"], r["texts"], r["rejected_by_the_model"], r["statements"], r["X"], 100.0 * r["X"] / max(1, r["statements"]),
             r["T"], 100.0 * r["T"] / max(1, r["statements"]), r["outside"], 100.0 * r["outside"] / max(1, r["statements"])))
         print("   by class:", json.dumps(r["by_statement_class"], sort_keys=True))
+        print("   AFTER (weaker payload condition leafAnyB2): X %d + Y %d = %.1f %%, T %d" % (r["X"], r["Y_text_level_by_leafAnyB2_only"],
+              100.0 * (r["X"] + r["Y_text_level_by_leafAnyB2_only"]) / max(1, r["statements"]), r["T"] - r["Y_text_level_by_leafAnyB2_only"]))
         print("   AFTER (third fragment): U %d -> outside %d (%.1f %%); inclusion violations %d" % (r["U_third_fragment_only"], r["outside_after"],
               100.0 * r["outside_after"] / max(1, r["statements"]), r["M_inclusion_violations"]))
         print("   remaining reasons:", json.dumps([[x["reason"], x["statements_with_it"]] for x in r["remaining"][:25]]))
